@@ -188,7 +188,7 @@ pub struct Built {
     pub entry_ids: Vec<Vec<w::UnitEntryId>>,
 }
 
-fn build_expr(ops: &[WOp], ui: usize, unit_ids: &[w::UnitId], entry_ids: &[Vec<w::UnitEntryId>]) -> w::Expression {
+pub fn build_expr(ops: &[WOp], ui: usize, unit_ids: &[w::UnitId], entry_ids: &[Vec<w::UnitEntryId>]) -> w::Expression {
     let mut e = w::Expression::new();
     let mut branches: Vec<(usize, usize)> = Vec::new();
     let eid = |u: usize, i: usize| entry_ids[u][i.min(entry_ids[u].len() - 1)];
